@@ -8,6 +8,7 @@
 From Bnum Require Import Base Prim.
 From Bnum.Model Require Import Digit Core Shift AddSub Mul Div Bits Pow Ops.
 From Bnum.Proofs Require Import AddSubLemmas PowDeps Panics OpsProofs.
+From Bnum.Proofs Require Import Discharge.
 
 (* Shl / Shr with any of the twelve primitive amount types and an amount the type and u32 can hold:
    the same outcome as the inherent shl / shr on the same operands, in both build modes *)
@@ -47,10 +48,10 @@ Print Assumptions C17_add_digit_exact.
 
 (* Div<digit> / Rem<digit>: quotient and remainder by the digit (under C03's div_rem_digit theorem);
    a zero digit panics in both build modes *)
-Theorem C17_div_rem_digit : div_digit_spec -> forall w n a d, 0 < w -> wf w n a -> 0 < d < B w ->
+Theorem C17_div_rem_digit : forall w n a d, 0 < w -> wf w n a -> 0 < d < B w ->
   exists q r, U_Div_digit w a d = Ret q /\ U_Rem_digit w a d = Ret r /\
               wf w n q /\ uval w q = uval w a / d /\ r = uval w a mod d.
-Proof. exact Div_Rem_digit_ok. Qed.
+Proof. exact (Div_Rem_digit_ok div_digit_spec_holds). Qed.
 Print Assumptions C17_div_rem_digit.
 
 Theorem C17_div_rem_digit_zero : forall w a, U_Div_digit w a 0 = Panic /\ U_Rem_digit w a 0 = Panic.
